@@ -42,6 +42,13 @@ type seqCase struct {
 	FixedPort bool   `json:"fixed_port,omitempty"`
 	Prev      []byte `json:"previous_reply,omitempty"`
 	Proto     string `json:"protocol,omitempty"`
+	// WarmVersion (hook layer): the same client has asked the same controller for its device record before, and the reply
+	// carried this firmware version (0 = no such call). What a controller said about itself earlier changes nothing about which
+	// datagrams are acceptable.
+	WarmVersion uint16 `json:"warm_version,omitempty"`
+	// NoListener (socket layer, SetAddress over connected UDP): nothing listens at the controller's address - the host answers
+	// with ICMP port unreachable. SetAddress 'succeeds once the request is sent'; it is called three times in a row.
+	NoListener bool `json:"no_listener,omitempty"`
 }
 
 var classNames = []string{"valid", "short", "long", "other-serial", "serial-0", "wrong-code", "wrong-id", "id-0x19", "malformed", "malformed-strict", "two-faults", "foreign"}
@@ -239,6 +246,16 @@ func runHook(c seqCase) *rp.Fail {
 		ev.Class("hook/after-a-reply-from-another-controller", 1)
 	}
 	u, d := hook.Mem(cfgFor(c, [4]byte{127, 0, 0, 2}, ctrlPort, 0))
+	if c.WarmVersion != 0 {
+		dev := make([]byte, 64)
+		spec.Header(dev, 0x17, 0x94, c.Call.Serial)
+		copy(dev[8:], []byte{192, 168, 1, 100, 255, 255, 255, 0, 192, 168, 1, 1, 0, 0x66, 0x19, 0x39, 0x55, 0x2d, byte(c.WarmVersion >> 8), byte(c.WarmVersion), 0x20, 0x18, 0x08, 0x16})
+		for i := 0; i < 2; i++ {
+			d.Reset(dev)
+			api.Invoke(u, api.Case{Call: spec.Call{Op: "GetDevice", Serial: c.Call.Serial}})
+		}
+		ev.Class("hook/after-a-device-record-with-firmware-version", 1)
+	}
 	d.Reset(c.Datagrams...)
 	res := api.Invoke(u, api.Case{Call: accepted(c.Call), V: api.Variant{WeekPresent: [7]bool{true, true, true, true, true, true, true}}})
 	return judge(c, reference(c), res, d.Consumed)
@@ -306,6 +323,20 @@ func runSocket(c seqCase, scale int) *rp.Fail {
 	}
 	if err != nil {
 		ev.HarnessError("farm: %v", err)
+		return nil
+	}
+	if c.NoListener && c.Path == 1 && c.Call.Op == "SetAddress" && udp != nil {
+		udp.Close()
+		ev.Class("socket/set-address-to-a-port-without-listener", 1)
+		u := hook.Real(cfgFor(c, ip, port, timeout))
+		for i := 0; i < 3; i++ {
+			res := api.Invoke(u, api.Case{Call: accepted(c.Call)})
+			if fail := judge(c, v, res, 0); fail != nil {
+				fail.Msg += fmt.Sprintf(" (call %d of 3; nothing listens at the controller's address: the host answers with ICMP port unreachable)", i+1)
+				return fail
+			}
+			time.Sleep(2 * time.Millisecond)
+		}
 		return nil
 	}
 	u := hook.Real(cfgFor(c, ip, port, timeout))
@@ -542,6 +573,9 @@ func genSeq(layer string, maxLen int) func(t *rapid.T) seqCase {
 				spec.Header(d, 0x17, 0x96, c.Call.Serial)
 				c.Datagrams = append(c.Datagrams, d)
 			}
+			if layer == "socket" && c.Path == 1 {
+				c.NoListener = rapid.IntRange(0, 2).Draw(t, "no.listener") == 0
+			}
 			return c
 		}
 		for i := 0; i < n; i++ {
@@ -581,6 +615,18 @@ func genSeq(layer string, maxLen int) func(t *rapid.T) seqCase {
 				prev[8] = 0x20
 				c.Prev = prev
 				c.Datagrams[rapid.IntRange(0, len(c.Datagrams)-1).Draw(t, "previous.at")] = prev
+			}
+		}
+		if layer == "hook" && rapid.IntRange(0, 2).Draw(t, "warm.version") == 0 {
+			c.WarmVersion = rapid.SampledFrom([]uint16{0x0892, 0x0662, 0x0662, 0x0663, 0x0656, 0x6620, 0x0100, 0xffff}).Draw(t, "version")
+			if rapid.IntRange(0, 3).Draw(t, "version.dict") == 0 {
+				if v := uint16(gen.DictInt(t, "version.dict.value", 0xffff)); v != 0 {
+					c.WarmVersion = v
+				}
+			}
+			// and a datagram that only differs in its protocol id from an acceptable one
+			if n := len(c.Datagrams); n > 0 && rapid.Bool().Draw(t, "version.id19") {
+				c.Datagrams[rapid.IntRange(0, n-1).Draw(t, "version.id19.at")] = mkDatagram(t, "id-0x19", c.Call)
 			}
 		}
 		if layer == "hook" && rapid.Bool().Draw(t, "warm") {
